@@ -10,6 +10,7 @@ mixes the point axis with the field axis does not translate (TranslateError = br
 Translated from src/WallGo/equationOfMotion.py (class EOM):
   wallProfile                  -> wallProfile_ret0 / _ret1 (array z) and *_scalarz
   action                       -> action_ret  (U, the quadrature of the potential, is opaque)
+  temperatureProfileEqLHS      -> temperatureLHS (field-axis reduction of dPhidz**2)
   _updateGrid                  -> updateGrid_arg0..3 (the 4 arguments handed to
                                   grid.changePositionFalloffScale)
   _toWallParams                -> toWallParams_widths / _offsets
@@ -58,6 +59,63 @@ def broadcast(d1, d2, where):
             raise TranslateError("axis mismatch %s vs %s in %s (field axis combined with "
                                  "point axis)" % (d1, d2, where))
     return tuple(out)
+
+
+VISITED = set()     # reduction call sites the translator went through (line, column)
+FIELD_DATA = {"fields", "dPhidz", "dfieldsdz", "vevLowT", "vevHighT", "wallParams", "widths",
+              "offsets", "wallWidths", "fieldsWithEndpoints"}
+ALL_RED = {"sum", "max", "amax", "min", "amin", "mean", "prod", "dot", "vdot", "inner",
+           "norm", "einsum", "tensordot", "trace", "cumsum", "average", "nansum"}
+
+
+def _direct_names(node):
+    """names used in `node` other than inside the arguments of a call to a collaborator
+    (particle.*, effectivePotential.*: their field dependence is external)"""
+    out = set()
+    if isinstance(node, ast.Name):
+        out.add(node.id)
+    elif isinstance(node, ast.Call):
+        f = node.func
+        own = isinstance(f, ast.Name) or (
+            isinstance(f, ast.Attribute) and isinstance(f.value, ast.Name) and
+            f.value.id in NP) or (isinstance(f, ast.Attribute) and f.attr in ("view",))
+        if own:
+            for a in list(node.args) + [k.value for k in node.keywords]:
+                out |= _direct_names(a)
+        if isinstance(f, ast.Attribute):
+            out |= _direct_names(f.value)
+    else:
+        for c in ast.iter_child_nodes(node):
+            out |= _direct_names(c)
+    return out
+
+
+def unmodelled_reductions(cls):
+    """reduction call sites anywhere in the class that act directly on field-axis data and
+    were not translated: the model would silently not cover them"""
+    bad = []
+    for fn in cls.body:
+        if not isinstance(fn, ast.FunctionDef):
+            continue
+        for n in ast.walk(fn):
+            if not isinstance(n, ast.Call):
+                continue
+            f = n.func
+            name = f.attr if isinstance(f, ast.Attribute) else (
+                f.id if isinstance(f, ast.Name) else None)
+            if name not in ALL_RED:
+                continue
+            args = list(n.args)
+            if isinstance(f, ast.Attribute) and not (isinstance(f.value, ast.Name) and
+                                                     f.value.id in NP) and \
+                    ast.unparse(f.value) not in ("np.linalg", "numpy.linalg"):
+                args.append(f.value)          # x.sum() / x.dot(y)
+            names = set()
+            for a in args:
+                names |= _direct_names(a)
+            if names & FIELD_DATA and (n.lineno, n.col_offset) not in VISITED:
+                bad.append("%s line %d: %s" % (fn.name, n.lineno, ast.unparse(n)[:50]))
+    return bad
 
 
 class Val:
@@ -202,6 +260,9 @@ class Vec:
         # identity wrappers
         if isinstance(f, ast.Name) and f.id == "float" and len(node.args) == 1:
             return self.expr(node.args[0], at)
+        if isinstance(f, ast.Attribute) and f.attr == "view" and len(node.args) == 1 and \
+                not node.keywords:
+            return self.expr(f.value, at)
         if _np_call(node, ("array", "asarray")) and len(node.args) == 1 and \
                 not isinstance(node.args[0], (ast.List, ast.Tuple)):
             return self.expr(node.args[0], at)
@@ -232,6 +293,7 @@ class Vec:
                                                         ast.unparse(node)[:60], node.lineno))
 
     def reduce(self, op, node, at):
+        VISITED.add((node.lineno, node.col_offset))
         if self.lam is None:
             raise TranslateError("reduction %s where an elementwise expression is expected"
                                  % ast.unparse(node)[:60])
@@ -342,6 +404,34 @@ GENV = {"self.meanFreePathScale": "(meanFreePathScale e)",
         "self.includeOffEq": "(includeOffEq e)",
         "self.grid.smoothing": "(smoothing e)",
         "self.grid.ratioPointsWall": "(ratioPointsWall e)"}
+
+
+def gen_temperatureLHS(fn, spans):
+    """EOM.temperatureProfileEqLHS at one grid point: dPhidz is a FieldPoint (field axis
+    only); the potential and its T-derivative at the field point are external scalars"""
+    ext = {"self.thermo.effectivePotential.evaluate(fields, T)": "veff",
+           "self.thermo.effectivePotential.derivT(fields, T)": "dVdT"}
+    inputs = {"dPhidz": ("x", ("F",)), "T": ("T", ()), "s1": ("s1", ()), "s2": ("s2", ())}
+    inputs.update({k: (v, ()) for k, v in ext.items()})
+    v = Vec(fn, inputs, lam=("x", "dP"))
+    first = [st for st in v.stmts if isinstance(st, ast.Assign) and len(st.targets) == 1 and
+             isinstance(st.targets[0], ast.Name) and st.targets[0].id == "result"]
+    if not first:
+        raise TranslateError("temperatureProfileEqLHS: `result = ...` not found")
+    val = v.expr(first[0].value, first[0].lineno)
+    if val.dims != ():
+        raise TranslateError("temperatureProfileEqLHS: result has axes %s" % (val.dims,))
+    # everything after it only unwraps the scalar
+    for st in v.stmts:
+        if st.lineno > first[0].lineno and isinstance(st, ast.Return):
+            if ast.unparse(st.value) not in ("float(result[0])", "float(result)"):
+                raise TranslateError("temperatureProfileEqLHS returns %s" %
+                                     ast.unparse(st.value)[:50])
+    spans["temperatureProfileEqLHS"] = (fn.lineno, fn.end_lineno, _sha(ast.unparse(fn)))
+    return ["(* one grid point: dP = dPhidz over the fields; veff, dVdT = potential and its "
+            "T-derivative at the field point (external) *)",
+            "Definition temperatureLHS (dP : list R) (T veff dVdT s1 s2 : R) : R :=\n  %s."
+            % val.term]
 
 
 def gen_updateGrid(fn, spans):
@@ -720,9 +810,11 @@ Local Open Scope R_scope.
 
 def generate(eom_src, fields_src):
     spans = {}
-    eom = methods(find_class(ast.parse(eom_src), "EOM"))
+    VISITED.clear()
+    eom_cls = find_class(ast.parse(eom_src), "EOM")
+    eom = methods(eom_cls)
     for m in ("wallProfile", "action", "_updateGrid", "_toWallParams",
-              "_intermediatePressureResults"):
+              "_intermediatePressureResults", "temperatureProfileEqLHS"):
         if m not in eom:
             raise TranslateError("EOM.%s not found" % m)
     out = [HEADER]
@@ -733,12 +825,18 @@ def generate(eom_src, fields_src):
     out += ["(** EOM.action *)"] + gen_action(eom["action"], spans)
     out += ["(** EOM._updateGrid: arguments of grid.changePositionFalloffScale *)"] + \
         gen_updateGrid(eom["_updateGrid"], spans)
+    out += ["(** EOM.temperatureProfileEqLHS (energy-momentum conservation inside the wall) *)"] \
+        + gen_temperatureLHS(eom["temperatureProfileEqLHS"], spans)
     pk, v, fn = gen_packing(eom, spans)
     out += ["(** EOM._toWallParams and what scipy.optimize.minimize receives *)"] + pk
     out += ["(** EOM._intermediatePressureResults: clipping of the incoming wall parameters "
             "(elementwise, every field including the pinned one) *)"] + gen_clip(fn)
     out += ["(** EOM._intermediatePressureResults: dV/dz and the Boltzmann background *)"] + \
         gen_dVdz(v, fn, spans, consts)
+    bad = unmodelled_reductions(eom_cls)
+    if bad:
+        raise TranslateError("reduction over field-axis data outside the model: " +
+                             "; ".join(bad))
     return "\n".join(out) + "\n", spans
 
 
